@@ -16,6 +16,7 @@ import (
 	"strconv"
 	"strings"
 	"sync"
+	"sync/atomic"
 	"testing"
 	"time"
 
@@ -372,6 +373,7 @@ type retryCase struct {
 	Script      []streamScript `json:"script"`       // stream mode: i-th opened stream
 	Unary       []bool         `json:"unary"`        // unary mode: i-th attempt succeeds?
 	CancelAfter int            `json:"cancel_after"` // stream mode: cancel the caller's context after this many messages (-1: never)
+	CancelBlock bool           `json:"cancel_blocked"` // stream mode: cancel from another goroutine once Recv is blocked on a hanging stream
 	Req         string         `json:"req"`
 	Allow       []string       `json:"allow"`    // interceptor.RPCNeedRetry as found in /repo
 	ProdMax     map[string]int `json:"prod_max"` // retry budgets configured in /repo/client (read from source)
@@ -384,6 +386,8 @@ type retryServer struct {
 	script []streamScript
 	unary  []bool
 	seen   []string // request payload of every call that reached a handler
+	sent   int64    // messages sent so far (all streams)
+	hang   chan struct{}
 }
 
 // next registers an incoming call and returns its ordinal
@@ -403,11 +407,16 @@ func (s *retryServer) play(i int, ctx context.Context, send func(id string) erro
 		if err := send(fmt.Sprintf("%d.%d", i, j)); err != nil {
 			return err
 		}
+		atomic.AddInt64(&s.sent, 1)
 	}
 	switch sc.End {
 	case "eof":
 		return nil
 	case "hang":
+		select {
+		case s.hang <- struct{}{}:
+		default:
+		}
 		<-ctx.Done()
 		return ctx.Err()
 	}
@@ -446,7 +455,7 @@ func runRetry(k *retryCase) {
 	impl := map[string]any{}
 	k.Impl = impl
 	kind, msg := hx.Guard(60*time.Second, func() {
-		srv := &retryServer{script: k.Script, unary: k.Unary}
+		srv := &retryServer{script: k.Script, unary: k.Unary, hang: make(chan struct{}, 1)}
 		ep, err := newEndpoint(srv, nil, []grpc.DialOption{
 			grpc.WithUnaryInterceptor(interceptor.NewUnaryRetry(interceptor.RetryOptions{Max: k.Max})),
 			grpc.WithStreamInterceptor(interceptor.NewStreamRetry(interceptor.RetryOptions{Max: k.Max})),
@@ -459,7 +468,31 @@ func runRetry(k *retryCase) {
 		ctx, cancel := context.WithCancel(context.Background())
 		defer cancel()
 		delivered := []string{}
+		var ndelivered int64
 		var last error
+		var cmu sync.Mutex
+		if k.CancelBlock {
+			// cancel from outside once the server hangs, the client has received everything sent so far
+			// and has had time to block in Recv again
+			go func() {
+				select {
+				case <-srv.hang:
+				case <-ctx.Done():
+					return
+				}
+				for w := 0; w < 5000 && atomic.LoadInt64(&ndelivered) < atomic.LoadInt64(&srv.sent); w++ {
+					time.Sleep(time.Millisecond)
+				}
+				time.Sleep(30 * time.Millisecond)
+				srv.mu.Lock()
+				n := len(srv.seen)
+				srv.mu.Unlock()
+				cmu.Lock()
+				impl["seen_at_cancel"] = n
+				cmu.Unlock()
+				cancel()
+			}()
+		}
 		if k.Mode == "unary" {
 			var p *pb.Pod
 			p, last = cli.GetPod(ctx, &pb.GetPodOptions{Name: k.Req})
@@ -527,6 +560,7 @@ func runRetry(k *retryCase) {
 					break
 				}
 				delivered = append(delivered, id)
+				atomic.AddInt64(&ndelivered, 1)
 				if len(delivered) > 10000 {
 					last = errors.New("runaway")
 					break
@@ -534,6 +568,8 @@ func runRetry(k *retryCase) {
 			}
 		}
 		ep.close() // waits for the server handlers: every call that reached the server is in `seen`
+		cmu.Lock()
+		defer cmu.Unlock()
 		srv.mu.Lock()
 		impl["seen"] = append([]string{}, srv.seen...)
 		srv.mu.Unlock()
@@ -613,6 +649,10 @@ func testGenRetry(t *testing.T) {
 		add(&retryCase{Mode: "stream", Method: "WatchServiceStatus", Max: 0, Script: []streamScript{S(1, "eof"), S(2, "err")}, CancelAfter: -1})
 		add(&retryCase{Mode: "stream", Method: "WorkloadStatusStream", Max: 2, Script: []streamScript{S(2, "err"), S(3, "hang")}, CancelAfter: 3})
 		add(&retryCase{Mode: "stream", Method: "WorkloadStatusStream", Max: 1, Script: []streamScript{S(1, "hang")}, CancelAfter: 0})
+		add(&retryCase{Mode: "stream", Method: "WatchServiceStatus", Max: 1, Script: []streamScript{S(2, "err"), S(1, "hang")}, CancelAfter: -1, CancelBlock: true})
+		add(&retryCase{Mode: "stream", Method: "WorkloadStatusStream", Max: 2, Script: []streamScript{S(0, "hang")}, CancelAfter: -1, CancelBlock: true})
+		add(&retryCase{Mode: "stream", Method: "WorkloadStatusStream", Max: 2, Script: []streamScript{S(1, "eof"), S(0, "err"), S(0, "hang")}, CancelAfter: -1, CancelBlock: true})
+		add(&retryCase{Mode: "stream", Method: "NodeStatusStream", Max: 2, Script: []streamScript{S(2, "hang")}, CancelAfter: -1, CancelBlock: true})
 		add(&retryCase{Mode: "stream", Method: "GetPodResource", Max: 3, Script: []streamScript{S(2, "err"), S(2, "eof")}, CancelAfter: -1})
 		add(&retryCase{Mode: "stream", Method: "NodeStatusStream", Max: 3, Script: []streamScript{S(0, "eof"), S(2, "eof")}, CancelAfter: -1})
 		add(&retryCase{Mode: "unary", Method: "GetPod", Max: 0, Unary: []bool{false, true}})
@@ -624,7 +664,10 @@ func testGenRetry(t *testing.T) {
 			case c < 6:
 				k.Mode, k.Method = "stream", hx.Pick(r, "WorkloadStatusStream", "WatchServiceStatus")
 				k.Script = genScript(r, slow)
-				if r.Chance(35) {
+				if r.Chance(25) { // the watch ends the usual way: the stream goes silent, the caller cancels while blocked
+					k.CancelBlock = true
+					k.Script[len(k.Script)-1] = streamScript{K: hx.Pick(r, 0, 1, 3), End: "hang"}
+				} else if r.Chance(35) {
 					tot := 0
 					for _, s := range k.Script {
 						tot += s.K
